@@ -122,6 +122,7 @@ func VerifC07_q_concurrentFilters() {
 	w.interferer = func() { _, _ = w.filter(b, "n1", "n2", "n3") }
 	w.windowAt = nondetInt(0, 16)
 	_, _ = w.filter(a, "n1", "n2", "n3")
+	w.finishInterference()
 	if w.interferer != nil {
 		// the second filter did not run inside the first: run it now (sequential order)
 		f := w.interferer
